@@ -145,3 +145,13 @@ def _fvd_total(case, v):
     except Exception:
         return False
     return e is not None and abs(rep) > 0 and e / abs(rep) < 5e-3
+
+
+@predicate("fuel_vol_delta_per_half")
+def _fvd_half(case, v):
+    # WingboxFuelVolDelta of a symmetric surface: sum(fuel_vols of the half) - (fuelburn/2 + reserve/2)/rho, i.e. the margin of ONE
+    # half, whereas masses, areas, lift and drag of a symmetric model are reported for the whole aircraft
+    if v["family"] != "as/fuel_vol_delta":
+        return False
+    r = v.get("detail", {}).get("ratio")
+    return r is not None and abs(r - 0.5) < 1e-5
